@@ -22,7 +22,7 @@ pub fn def() -> CheckDef {
         },
         gen,
         run,
-        rule: "seeded histories of mostly successful operations (structure, whole-stream writes, handle writes and set_len, metadata, reopen), <= 40 ops; the first few cases of a run are 'large' histories that force several FAT sectors, a DIFAT sector (V3, > 7.2 MB), several directory and MiniFAT sectors. After every successful mutating op the independent checker imgck judges rules R1-R10 on the byte image and its logical dump must equal the model. Non-trivial: >= 1 successful mutation and >= 1 image check; distinct = distinct (seam log, final image) hash.",
+        rule: "every fourth case is a 'sibling churn' (5-9 data-bearing siblings created and removed in drawn orders); the others are seeded histories of mostly successful operations (structure, whole-stream writes, handle writes and set_len, metadata, reopen), <= 40 ops; the first few cases of a run are 'large' histories that force several FAT sectors, a DIFAT sector (V3, > 7.2 MB), several directory and MiniFAT sectors. After every successful mutating op the independent checker imgck judges rules R1-R10 on the byte image and its logical dump must equal the model. Non-trivial: >= 1 successful mutation and >= 1 image check; distinct = distinct (seam log, final image) hash.",
         assumptions: &["imgck (sim/src/imgck.rs) is an independent MS-CFB reader written from the specification; R5 for the root entry demands capacity (chain >= size), not equality", "sibling-order rule judged only for names from agreed case-mapping classes"],
         cpu_limit_s: 120,
         fault_kinds: "none (fault-free disk)",
@@ -118,6 +118,40 @@ pub fn gen(seed: u64, idx: u64, tier: Tier) -> Case {
     let nlarge = if tier == Tier::Quick { LARGE_QUICK } else { LARGE_THOROUGH };
     if idx < nlarge {
         return large_case(&mut rng, idx);
+    }
+    if idx % 4 == 0 {
+        // sibling churn: 5-9 data-bearing siblings created in a drawn order, then removed in a
+        // drawn order (some re-created): exercises every shape of the sibling tree on removal
+        let version = if rng.chance(1, 2) { 3 } else { 4 };
+        let mut c = Case::new("C03", "sibling-churn", version);
+        let n = rng.range(5, 9) as usize;
+        let names = crate::names::gen_pool(&mut rng, crate::names::NameClass::Ascii, n);
+        let parent = if rng.chance(1, 3) {
+            c.ops.push(Op::CreateStorage("/dir".into()));
+            "/dir"
+        } else {
+            ""
+        };
+        let mut order: Vec<usize> = (0..n).collect();
+        rng.shuffle(&mut order);
+        let mut nonce = 600u32;
+        for &i in &order {
+            nonce += 1;
+            if rng.chance(1, 5) {
+                c.ops.push(Op::CreateStorage(format!("{}/{}", parent, names[i])));
+            } else {
+                c.ops.push(Op::WriteWhole { path: format!("{}/{}", parent, names[i]), len: *rng.pick(&[1u64, 64, 100, 4095, 4096, 5000]), nonce });
+            }
+        }
+        rng.shuffle(&mut order);
+        for (j, &i) in order.iter().enumerate() {
+            c.ops.push(Op::RemoveStorageAll(format!("{}/{}", parent, names[i])));
+            if j % 3 == 1 {
+                nonce += 1;
+                c.ops.push(Op::WriteWhole { path: format!("{}/{}", parent, names[order[0]]), len: *rng.pick(&[70u64, 4096]), nonce });
+            }
+        }
+        return c;
     }
     let k = Knobs { max_ops: 40, near_miss: &[0, 0, 5], big_one_in: 5, no_remove_with_open_handles: true, ..DEFAULT_KNOBS };
     let w = match rng.below(3) {
